@@ -29,11 +29,11 @@ type evalRes struct {
 // the candidates of each round; the input reported is the smallest failing
 // one of a seed-independent list selection.
 type shrinker struct {
-	c                    *core.Ctx
-	bin, prop            string
-	mc                   *mcResult
-	cache                map[string]*evalRes
-	sel                  *selection
+	c                     *core.Ctx
+	bin, prop             string
+	mc                    *mcResult
+	cache                 map[string]*evalRes
+	sel                   *selection
 	rounds, ran, goderive int
 }
 
